@@ -67,6 +67,13 @@ Section TS.
     | O => Some s
     | S k' => match step s t with Some s' => run_n t k' s' | None => None end
     end.
+
+  (* the same, seen from the thread: only the global part and its own local state change *)
+  Fixpoint lrun (t : nat) (k : nat) (g : G) (th : T) : option (G * T) :=
+    match k with
+    | O => Some (g, th)
+    | S k' => match tstep t g th with Some (g', th') => lrun t k' g' th' | None => None end
+    end.
 End TS.
 
 Arguments St {G T}.
